@@ -411,11 +411,7 @@ theorem read_endpoints_always (c : LogConfig) :
   intro p
   unfold endpoints
   cases c.isMirror <;> cases c.isReadonly <;>
-    simp [Gen.handlersDropAdd, Gen.handlerPaths, Gen.handlerDropped, List.filter] <;> tauto
-
-/-- prefix normalisation of `Handlers` on the shapes operators write: `log` → `/log`, `//a//` → `//a`, `/` → empty -/
-example : normPrefix [108, 111, 103] = [47, 108, 111, 103] ∧ normPrefix [47, 47, 97, 47, 47] = [47, 47, 97] ∧
-    normPrefix [47] = [] ∧ normPrefix [] = [] := by decide
+    simp [Gen.handlerPathsFor, List.filter] <;> tauto
 
 /-- **prefix normalisation** of `Handlers` (`"/" + prefix` unless it already starts with `/`, then `strings.TrimRight(prefix, "/")`):
 the result never ends in `/`, starts with `/` unless it is empty, and is the (slash-prefixed) prefix minus trailing
